@@ -119,7 +119,7 @@ def check(ctx):
     cp = Facts(f).assigns("cross_product")
     ctx.check(cp == ["factor.levels[0].get_dependent_cross_product()"], R, f, "cross product", "the window space is the first level's dependent cross product", "cross_product is %s" % cp)
     fs = Facts(f).assigns("derived_factors")
-    ctx.check(fs == ["[factor for factor in block.design if isinstance(factor, DerivedFactor)]"], R, f, "all derived factors", "implied derived factors are checked too (block.design, not act_design)",
+    ctx.check(fs == ["[_b0 for _b0 in block.design if isinstance(_b0, DerivedFactor)]"], R, f, "all derived factors", "implied derived factors are checked too (block.design, not act_design)",
               "derived_factors is %s" % fs)
     # argument shaping is the same in generation and in the report
     chunks = [ast.unparse(s) for s in statements(f.node) if isinstance(s, ast.If) and ast.unparse(s.test) == "level.window.width != 1"]
